@@ -217,6 +217,8 @@ def main():
             fmt = rng.choice(["npy", "fits"])
             formats = None
             chooser = simmp.RandomChooser(rng.randrange(2 ** 31), timeout_weight=0.1)
+            if si % 5 == 4:
+                chooser = simmp.PCTChooser(rng.randrange(2 ** 31), depth=rng.choice([2, 3, 4]))
             reps = 2 if si % 4 == 3 else 1            # several updates of the tile by one process
             sim, bad, state = one(n, mode, fmt, chooser, formats, reps)
             if bad:
